@@ -41,6 +41,7 @@ MonInit ==
     dirty |-> {},        \* conns holding bytes the proxy has not read yet (it reads data before EOF)
     recvd |-> {}, lost |-> {}, noticed |-> {}, expired |-> {}, tmo |-> {}, rd |-> {},
     connLost |-> FALSE, viol |-> {}, dead |-> FALSE,
+    big |-> {},          \* fragments answered with a reply that may not fit one read: when it has been read is unknown until the end
     slow |-> {},         \* clients that stopped reading at some point: "by the end of the iteration" means nothing for them
     topoSeen |-> FALSE,  \* the scenario changes the cluster's description (the slot table is then not the static one)
     role |-> "", base |-> [nlog |-> <<>>, got |-> <<>>, cst |-> <<>>] ]   \* C08: outcome of the unsegmented twin
@@ -289,6 +290,7 @@ MonApply(m, e) ==
             ELSE [m1 EXCEPT !.ans = Put(@, f, [n |-> e.n, kind |-> e.kind, cls |-> e.cls, num |-> e.num,
                                                vals |-> [k \in DOMAIN e.toks |-> e.toks[k].v]]),
                             !.unread = Put(@, e.conn, At(m.unread, e.conn, {}) \cup {f}),
+                            !.big = IF e.size > 4000 THEN @ \cup {f} ELSE @,
                             !.dirty = @ \cup {e.conn}]
     [] e.ev = "answerauto" /\ e.kind = "late" -> [m EXCEPT !.late = @ \cup {e.conn}]
     [] e.ev \in {"answerhead", "answerauto"} -> [m EXCEPT !.dirty = @ \cup {e.conn}]
@@ -325,7 +327,7 @@ MonApply(m, e) ==
     [] e.ev = "iter" ->
          LET conns == {e.seen[x].n : x \in {y \in DOMAIN e.seen : e.seen[y].k = "s"}}
              clis  == {e.seen[x].n : x \in {y \in DOMAIN e.seen : e.seen[y].k = "c"}}
-             newrd == UNION {At(m.unread, cn, {}) : cn \in conns}
+             newrd == UNION {At(m.unread, cn, {}) : cn \in conns} \ m.big
              eof   == conns \ m.dirty      \* one read per event: pending bytes first, end-of-file next time
              newnt == UNION {At(m.lostp, cn, {}) : cn \in eof}
              \* a redirect that is read before the iteration's timeout scan takes the fragment out of the timeout tree;
@@ -336,7 +338,7 @@ MonApply(m, e) ==
                              !.expired = @ \ rearmed,
                              !.tmo = IF e.seen # <<>> THEN @ \cup (m.expired \ rearmed) ELSE @,
                              !.unreadRedir = [cn \in DOMAIN m.unreadRedir |-> IF cn \in conns THEN {} ELSE m.unreadRedir[cn]],
-                             !.unread = [cn \in DOMAIN m.unread |-> IF cn \in conns THEN {} ELSE m.unread[cn]],
+                             !.unread = [cn \in DOMAIN m.unread |-> IF cn \in conns THEN m.unread[cn] \cap m.big ELSE m.unread[cn]],
                              !.lostp = [cn \in DOMAIN m.lostp |-> IF cn \in eof THEN {} ELSE m.lostp[cn]],
                              !.dirty = (@ \ conns) \cup m.late, !.late = {},
                              !.nread = [c \in DOMAIN m.nread \cup clis |->
